@@ -67,7 +67,20 @@ def ev(t, L, R, o, casts=None):
     if k == "const":
         if t[1] == "bool" and t[3] is not None:
             return bool(t[3])
+        last = str(t[2]).split("::")[-1]
+        if last in ("Less", "Equal", "Greater") and ("Ordering" in str(t[1]) or "Ordering" in str(t[2])):
+            return last
         raise Unknown("constant %s" % (t[2],))
+    if k == "field" and t[2] == "Some.0":
+        v = ev(t[1], L, R, o, casts)       # payload of a partial_cmp / Some(cmp) result
+        if isinstance(v, tuple) and v[0] == "some":
+            return v[1]
+        raise Unknown("payload of %s" % (v,))
+    if k == "discr":
+        v = ev(t[1], L, R, o, casts)       # discriminant of an Ordering: identified with the ordering itself
+        if isinstance(v, str) and v in ("Less", "Equal", "Greater"):
+            return v
+        raise Unknown("discriminant of %s" % (v,))
     if k == "agg":
         if t[1].endswith("Ordering"):
             return t[2]
